@@ -23,6 +23,8 @@ def check(ctx: Ctx, col: Collector, tier: str) -> None:
              "specialisation of _is_public over name form x parent kind x parent publicity x re-export verdict", floor=30)
     col.spec("C04.REEXPORT-GUARDS", "a re-export makes a declaration public only if the import really names it and the exported name is public",
              "path facts of every `return True` of _check_publicity_in_reexports", floor=3)
+    col.spec("C04.REEXPORT-TABLE", "each import form of a re-exporting __init__ (wildcard, whole module, by name) makes exactly the declarations public that it names under a public name",
+             "specialisation of the three import loops of _check_publicity_in_reexports over package relation x name equality x alias x name form x parent", floor=60)
     col.spec("C04.MEMO-KEY", "the publicity of a declaration does not depend on which declaration was analysed before", "memo-key completeness in the visitor", floor=1)
 
     # ------------------------------------------------------------------ EMIT-GUARD
@@ -203,6 +205,100 @@ def check(ctx: Ctx, col: Collector, tier: str) -> None:
     (col.ok if good else col.bad)("C04.REEXPORT-GUARDS", f"{key0}::verdicts", repo.loc(VISITOR, rfi.node), f"verdicts: True or {sorted(others)}",
                                   *([] if good else [f"_check_publicity_in_reexports returns {sorted(others)} besides True/None"]))
 
+    # ------------------------------------------------------------------ REEXPORT-TABLE (both directions, per import form)
+    reexport_table(ctx, col)
+
     # ------------------------------------------------------------------ MEMO-KEY
     memo_obligations(ctx, col, "C04.MEMO-KEY", {VISITOR})
     col.assume("the string-matching heuristics of _check_publicity_in_reexports (endswith on arbitrary names) are decided only through the necessary conditions above")
+
+
+def reexport_table(ctx: Ctx, col: Collector) -> None:
+    """Truth tables of the three import loops of _check_publicity_in_reexports against the reference conditions."""
+    repo = ctx.repo
+    rfi = repo.function(VISITOR, f"{VCLS}._check_publicity_in_reexports")
+    rit = ctx.interp(rfi, inline={"is_internal"})
+    mf = Obj("MypyFile", (("fullname", Sym("MQ")), ("name", Sym("MN"))))
+    st = State({"self": Sym("self"), "self.api": Sym("self.api"), "self.mypy_file": mf})
+    rit.run_function(rfi, {"self": Sym("self"), "name": Sym("name"), "qname": Sym("qname"), "parent": Sym("parent")}, st)
+    key0 = f"{VISITOR}::{VCLS}._check_publicity_in_reexports"
+    wl = find_loops(rit, rfi, lambda v: isinstance(v, Sym) and v.path.endswith(".wildcard_imports"))
+    ql = find_loops(rit, rfi, lambda v: isinstance(v, Sym) and v.path.endswith(".qualified_imports"))
+    if len(wl) != 1 or len(ql) != 2:
+        raise AnalysisError(f"import loops of _check_publicity_in_reexports not found ({len(wl)} wildcard, {len(ql)} qualified)")
+    parents = {"Module": Obj("Module", ()), "public Class": Obj("Class", (("is_public", Const(True)),)), "private Class": Obj("Class", (("is_public", Const(False)),))}
+
+    def verdicts(node, entry, env, elem, atoms):
+        """(assignment of the atoms -> True returned?) from the outcomes of one loop body; undecided atoms expand to both values."""
+        e = entry.clone()
+        e.env.update(env)
+        table = {}
+        outs = run_body(rit, node, e, elem)
+        base = len(entry.facts)
+        for o in outs:
+            facts = dict(list(o.facts)[base:])
+            vals = []
+            for a in atoms:
+                ks = [k for k in facts if a(k)]
+                vals.append(facts[ks[0]] if ks else None)
+            combos = [()]
+            for v in vals:
+                combos = [c + (x,) for c in combos for x in ((v,) if v is not None else (True, False))]
+            for c in combos:
+                table.setdefault(c, set()).add(o.kind == "return" and o.value == Const(True))
+        return table
+
+    # ---- wildcard imports: public iff ((same package and W == module name) or (key names the module and W == module qname)) and public name and public parent
+    node, _, _, entry = wl[0]
+    atoms = [lambda k: k in ("<MN>==<W>", "<W>==<MN>"), lambda k: k in ("<MQ>==<W>", "<W>==<MQ>")]
+    for same in (True, False):
+        for other in (True, False):
+            if not same and not other:
+                continue  # skipped by the `continue` before the loops (C04.REEXPORT-GUARDS right-package)
+            for ni in (True, False):
+                for pk, pobj in parents.items():
+                    t = verdicts(node, entry, {"is_from_same_package": Const(same), "is_from_another_package": Const(other), "not_internal": Const(ni), "parent": pobj},
+                                 Obj("WildcardImport", (("module_name", Sym("W")),)), atoms)
+                    for (eqn, eqq), got in sorted(t.items()):
+                        want = ((same and eqn) or (other and eqq)) and ni and pk != "private Class"
+                        key = f"{key0}::wildcard::same={same},names-module={other},W==name:{eqn},W==qname:{eqq},public-name={ni},parent={pk}"
+                        if got == {want}:
+                            col.ok("C04.REEXPORT-TABLE", key, repo.loc(VISITOR, node), f"returns True: {want}")
+                        else:
+                            col.bad("C04.REEXPORT-TABLE", key, repo.loc(VISITOR, node), f"returns True: {sorted(got)}; reference {want}",
+                                    f"wildcard re-export (`from {'.m' if same else 'pkg.m'} import *`): with same-package={same}, key-names-module={other}, import==module name:{eqn}, import==module qname:{eqq}, "
+                                    f"public name={ni}, parent {pk} the declaration is {'made' if True in got else 'not made'} public; it should {'be' if want else 'not be'}")
+    # ---- whole-module qualified imports and by-name imports
+    (n1, _, _, e1), (n2, _, _, e2) = sorted(ql, key=lambda x: x[0].lineno)
+    qi = Obj("QualifiedImport", (("qualified_name", Sym("Q")), ("alias", Sym("A"))))
+    a_in = lambda k: k.startswith("<Q> in {")  # noqa: E731
+    a_none = lambda k: k in ("<A>==None", "None==<A>")  # noqa: E731
+    a_priv = lambda k: k == "truthy:.startswith(<A>, '_')"  # noqa: E731
+    for ni in (True, False):
+        for pk, pobj in parents.items():
+            t = verdicts(n1, e1, {"not_internal": Const(ni), "parent": pobj}, qi, [a_in, a_none, a_priv])
+            for (inq, anone, apriv), got in sorted(t.items()):
+                if anone and apriv:
+                    continue  # no alias: its name form is not read
+                want = inq and ((anone and ni) or (not anone and not apriv)) and ni and pk != "private Class"
+                key = f"{key0}::whole-module::import-names-module={inq},alias-none={anone},alias-private={apriv},public-name={ni},parent={pk}"
+                if got == {want}:
+                    col.ok("C04.REEXPORT-TABLE", key, repo.loc(VISITOR, n1), f"returns True: {want}")
+                else:
+                    col.bad("C04.REEXPORT-TABLE", key, repo.loc(VISITOR, n1), f"returns True: {sorted(got)}; reference {want}",
+                            f"module re-export (`import pkg.m [as alias]`): import names the module={inq}, no alias={anone}, alias private={apriv}, public name={ni}, parent {pk}: "
+                            f"the declaration is {'made' if True in got else 'not made'} public; it should {'be' if want else 'not be'}")
+    a_end = lambda k: k.startswith("truthy:.endswith(<qname>, <Q>)")  # noqa: E731
+    for ni in (True, False):
+        t = verdicts(n2, e2, {"not_internal": Const(ni)}, qi, [a_end, a_none, a_priv])
+        for (endq, anone, apriv), got in sorted(t.items()):
+            if anone and apriv:
+                continue
+            want = endq and ((not anone and not apriv) or (anone and ni))
+            key = f"{key0}::by-name::import-names-declaration={endq},alias-none={anone},alias-private={apriv},public-name={ni}"
+            if got == {want}:
+                col.ok("C04.REEXPORT-TABLE", key, repo.loc(VISITOR, n2), f"returns True: {want}")
+            else:
+                col.bad("C04.REEXPORT-TABLE", key, repo.loc(VISITOR, n2), f"returns True: {sorted(got)}; reference {want}",
+                        f"by-name re-export (`from .m import X [as alias]`): import names the declaration={endq}, no alias={anone}, alias private={apriv}, public name={ni}: "
+                        f"the declaration is {'made' if True in got else 'not made'} public; it should {'be' if want else 'not be'}")
